@@ -72,7 +72,14 @@ fn run_one(i: usize, b: &Value) -> anyhow::Result<Value> {
     let dir_l = tempfile::tempdir()?;
     let dl = dir_l.path().to_string_lossy().into_owned();
     let dir_f = tempfile::tempdir()?;
-    let df = dir_f.path().to_string_lossy().into_owned();
+    let df = match std::env::var("RNVERIF_KEEP_DIR") {
+        // (debugging aid: keep the follower's data directory)
+        Ok(d) if !d.is_empty() => {
+            std::fs::create_dir_all(&d)?;
+            d
+        }
+        _ => dir_f.path().to_string_lossy().into_owned(),
+    };
     let mut leader = NodeProc::start_env(&dl, 300, &[("RNVERIF_NODE_ID", "1".to_string())])?;
     let fenv = [("RNVERIF_NODE_ID", "2".to_string())];
     let mut follower: Option<NodeProc> = None;
